@@ -115,6 +115,7 @@ func runC12PacketTrace(ops []c12Op) (trace []string, finalLost []int, findings [
 				findings = append(findings, MonitorFinding{"C12/harness", "ListenPacket succeeded on an address held by another socket", ops})
 			}
 			own.Close()
+			trace = append(trace, "OFailAcquire")
 		case "dial":
 			if open == 0 {
 				continue // nobody holds the socket
